@@ -7,13 +7,13 @@ open Cppcheck.Wire Cppcheck.Shell Cppcheck.GccArgs
 C32 driver.  One op per line:
   split <hexcmd>                      -> ok <hexarg>* | err
   quote {<b|d|s|x>:<pad>:<hexarg>}*   -> <hexcmd> <argOk:0|1>        (the model's `Shell.quote`)
-  parse <hexarg>*                     -> I <list> | S <list> | D <hex> | U <list> | T <hex>   or  oob
+  parse <hexarg>*                     -> I <list> | S <list> | D <hex> | U <list> | T <hex>
   spec <hexarg>*                      -> same line for `Spec.gcc`, followed by ` | clean <0|1> defok <0|1>`
   defs <hex>                          -> <hex>                       (`fsSetDefines`)
   simplify <hex>                      -> <hex>                       (`simplecpp::simplifyPath`)
   incs <hexbase> <hexpath>*           -> <list>                      (`fsSetIncludePaths`)
   import {<hexdir> <hexfile|!> (A <n> <hexarg>*n | C <hexcmd> | N)}*
-                                      -> rc <0|1> errs <n> { || P <hexpath> id <n> | <fs line> }*   or  oob
+                                      -> rc <0|1> errs <n> { || P <hexpath> id <n> | <fs line> }*
   normal <hexdef>*                    -> <hex> defok <0|1>           (`Spec.normal`)
   render {<I|S|D|U|T|F|P|O>:<joined 0|1>:<hex>[:<hex>]}*
                                       -> <hexarg>* | <fs line of `meaning`> | wf <0|1>   (`render`, `meaning`, `Opt.wf`)
@@ -83,7 +83,6 @@ def parseEntries : Nat → List String → Option (List Entry)
 open Cppcheck.GccArgs.Import in
 def importStr (es : List Entry) : String :=
   let r := importEntries es 0 []
-  if r.oob then "oob" else
   "rc " ++ boolStr r.ok ++ " errs " ++ toString r.errors ++
     String.join (r.files.map fun x => " || P " ++ toHex x.path ++ " id " ++ toString x.fileId ++ " | " ++ fsStr x.fs)
 
@@ -133,9 +132,7 @@ def step (line : String) : String :=
   | "parse" :: hs =>
     match hexAll hs with
     | some args =>
-      match parseArgs args with
-      | some fs => fsStr fs
-      | none => "oob"
+      fsStr (parseArgs args)
     | none => "bad-op"
   | "spec" :: hs =>
     match hexAll hs with
